@@ -11,6 +11,8 @@ def run(rep, kf, tier, seed):
     engine_b.discharge(rep, kf, [cfgc.get_content_type_contract(), cfgc.class_from_string_contract(), cc.from_data_contract(),
                                  rb.body_from_data_contract()],
                        "C16", tier, seed)
+    import contracts.project as cproj
+    engine_b.discharge(rep, kf, [cproj.init_contract()], "C16", tier, seed)
     rep.obligations = [o for o in rep.obligations if "C16" in o.props or o.id.endswith("no-exception-escapes")]
     cd.discharge(rep, kf, "C16", tier, seed)
     import contracts.closure as cl
